@@ -201,7 +201,7 @@ def _dtype_block(V, rng, tier):
             else:
                 ref = torch.full([n_ + p_[0] + p_[1] for n_, p_ in zip(N, pads)], val, dtype=f.dtype)
                 ref[tuple(slice(p_[0], p_[0] + n_) for n_, p_ in zip(N, pads))] = xf
-                if list(f.shape) != list(ref.shape) or float((f - ref).abs().max()) > 1e-5: V.fail("pad (tensor, complex value) differs from the dense padding", desc)
+                if list(f.shape) != list(ref.shape) or not (float((f - ref).abs().max()) <= 1e-5): V.fail("pad (tensor, complex value) differs from the dense padding", desc)
         except Exception as ex:
             V.fail("pad with a complex fill value raises %s" % type(ex).__name__, dict(desc, exc=str(ex)[:200]))
         dist["pad complex value " + ("operator" if ttm else "tensor")] = dist.get("pad complex value " + ("operator" if ttm else "tensor"), 0) + 1
